@@ -24,10 +24,11 @@ WidthOK(t) == \* 2 a w^3 = 3 c Gamma^2 S   with c = cn / CostDen
   RMul(RMul(R(2), t.a), RPow(t.w, 3)) = RMul(RMul(Q(3 * t.cn, CostDen), R(t.gamma * t.gamma)), R(t.spot))
 
 \* ---------------------------------------------------------------- helpers
+\* (a may be negative and so may the documented formula's value: the helper returns the formula, it does not floor it)
 \* SVI total variance on Pythagorean pairs (k - m, sigma): sqrt((k-m)^2 + sigma^2) = hyp is an integer
 Pyth == { <<3, 4, 5>>, <<5, 12, 13>>, <<8, 6, 10>>, <<0, 3, 3>>, <<-3, 4, 5>>, <<-8, 15, 17>> }
 SviCases == { [a |-> Q(an, 2), b |-> Q(bn, 2), rho |-> Q(rn, 2), m |-> Q(mn, 2), km |-> t[1], sigma |-> t[2], hyp |-> t[3]] :
-              an \in {0, 1, 3}, bn \in {1, 2}, rn \in {-1, 0, 1}, mn \in {-1, 0, 2}, t \in Pyth }
+              an \in {-8, 0, 1, 3}, bn \in {1, 2}, rn \in {-1, 0, 1}, mn \in {-1, 0, 2}, t \in Pyth }
 Svi(t) == RAdd(t.a, RMul(t.b, RAdd(RMul(t.rho, R(t.km)), R(t.hyp))))
 \* bilinear interpolation with dyadic weights
 Lerp(u, v, w) == RAdd(u, RMul(w, RSub(v, u)))
